@@ -29,16 +29,20 @@ Definition vals_ok (s : string) (v : Q * Q * Q * Q * Q) : bool :=
   kappa_ok l k && close d (m_delta l) && close m (m_dmax l) && check_scd l c &&
   kappa_ok (recode1 omega_group (sq s)) o.
 
-(* C05: (x, T x, compare kappa/delta/delta-max/SCD?, compare Omega?, outputs on x, outputs on T x): both agree with the model, and the
-   implementation's own outputs are invariant (Omega only, when the transform is Omega-class) *)
-Definition check_c05 (c : string * string * bool * bool * (Q * Q * Q * Q * Q) * (Q * Q * Q * Q * Q)) : bool :=
-  let '(s, t, all, om, v, w) := c in
+(* C05: (x, outputs on x, [(T x, compare kappa/delta/delta-max/SCD?, compare Omega?, outputs on T x)]):
+   the outputs on x agree with the model (whose invariance is proved), and the implementation's own
+   outputs on every T x equal those on x *)
+Definition vals5 : Type := (Q * Q * Q * Q * Q)%type.
+Definition check_c05 (c : string * vals5 * list (string * bool * bool * vals5)) : bool :=
+  let '(s, v, ts) := c in
   let '(k, d, m, sc, o) := v in
-  let '(k', d', m', sc', o') := w in
-  vals_ok s v && vals_ok t w &&
-  (negb om || kappa_boundary (recode1 omega_group (sq s)) || close o o') &&
-  (negb all ||
-   ((kappa_boundary (pat (sq s)) || close k k') && close d d' && close m m' && close sc sc')).
+  let kb := kappa_boundary (pat (sq s)) in
+  let ob := kappa_boundary (recode1 omega_group (sq s)) in
+  vals_ok s v &&
+  forallb (fun t => let '(_, all, om, w) := t in
+                    let '(k', d', m', sc', o') := w in
+                    (negb om || ob || close o o') &&
+                    (negb all || ((kb || close k k') && close d d' && close m m' && close sc sc'))) ts.
 
 (* C06 *)
 Definition kappaX_pattern (g1 : list string) (g2 : option (list string)) (s : list aa) : option (list Z) :=
